@@ -1,7 +1,1394 @@
-//! C09 — not built yet (stub).
+//! C09 — NSEC3 denial of existence is sound, complete and iteration-bounded.
+//!
+//! Same shape as C08 with the genuine NSEC3 ring of the model zone (RFC 5155 §7.1; salts
+//! {∅, 1, 8 octets}, iterations, Opt-Out): `verify_nsec3(..) == Secure` ⇒ the claim is true in the
+//! zone (truth predicate of `refm::zonemodel`); a covering Opt-Out record may only support a
+//! DS-absence claim; records of another zone or another parameter set mixed in ⇒ never Secure;
+//! iterations above the soft limit ⇒ never Secure, above the hard limit ⇒ Bogus; and the proof
+//! hickory's own server attaches is accepted (direct call and, sampled, `DnssecDnsHandle`).
 
-use crate::core::Check;
+use std::cell::RefCell;
+use std::rc::Rc;
+
+use hickory_net::dnssec::verif_hooks::verify_nsec3;
+use hickory_proto::dnssec::rdata::NSEC3;
+use hickory_proto::dnssec::Proof;
+use hickory_proto::op::Query;
+use hickory_proto::rr::Name;
+use proptest::prelude::*;
+use serde::{Deserialize, Serialize};
+
+use super::c08::{
+    claims_for, kinds_agree, parse_zone, pick_deviation, server_kind, shape_sig, triage, E2eVerdict, ServerKind,
+    QTYPES4,
+};
+use crate::core::{enumerate, prop, CaseResult, Check, Env, Fail, Rec, Tier};
+use crate::gen::zonebuild::{self as zb, abs_q, hk_nsec3, rtype, to_name, HkZone, NxKind};
+use crate::gen::nzones::{self as zones, masks_for, MaskRng, ZText};
+use crate::refm::canon;
+use crate::refm::zonemodel::{
+    is_wildcard_name, nsec3_hash, nsec3_ring, show, ty, wildcard_of, Claim, Exist, Nsec3Params, Nsec3Rec, Pos, Truth,
+    Zone,
+};
+
+pub const NARROW_SIGS: [&str; 13] = [
+    "nsec3-wraparound-record-covers-everything",
+    "nsec3-apex-nodata-accepted-without-matching-record",
+    "nsec3-ancestor-delegation-nsec3-accepted",
+    "nsec3-optout-span-accepted-as-proof-of-nonexistence",
+    "nsec3-optout-ds-branch-not-rfc5155-8-6",
+    "nsec3-nodata-branches-ignore-answer-section",
+    "nsec3-nxdomain-ignores-answer-section",
+    "nsec3-foreign-zone-records-accepted-without-soa",
+    "nsec3-chain-omits-asterisk-ent-below-apex",
+    "nsec3-server-nxdomain-proof-lacks-wildcard-cover-for-ds",
+    "server-nxdomain-when-wildcard-exists-without-type",
+    "server-wildcard-synthesis-ignores-closest-encloser",
+    "server-no-synthesis-for-asterisk-qname",
+];
+
+#[derive(Clone, Debug, PartialEq, Eq, Hash, Serialize, Deserialize)]
+pub struct P3 {
+    #[serde(with = "crate::core::hexser")]
+    pub salt: Vec<u8>,
+    pub iterations: u16,
+    pub opt_out: bool,
+}
+
+impl P3 {
+    pub fn model(&self) -> Nsec3Params {
+        Nsec3Params {
+            salt: self.salt.clone(),
+            iterations: self.iterations,
+            opt_out: self.opt_out,
+        }
+    }
+    fn show(&self) -> String {
+        format!(
+            "salt={} iter={} optout={}",
+            if self.salt.is_empty() { "-".into() } else { crate::core::hexser::to_hex(&self.salt) },
+            self.iterations,
+            self.opt_out
+        )
+    }
+}
+
+pub const SALT1: [u8; 1] = [0xAB];
+pub const SALT8: [u8; 8] = [0x01, 0x23, 0x45, 0x67, 0x89, 0xAB, 0xCD, 0xEF];
+
+fn salt_pick() -> impl Strategy<Value = Vec<u8>> {
+    prop_oneof![Just(vec![]), Just(SALT1.to_vec()), Just(SALT8.to_vec())]
+}
+
+fn p3_small() -> impl Strategy<Value = P3> {
+    (salt_pick(), prop_oneof![Just(0u16), Just(1u16), Just(5u16)], any::<bool>()).prop_map(|(salt, iterations, opt_out)| P3 {
+        salt,
+        iterations,
+        opt_out,
+    })
+}
+
+/// the parameter sets of the exhaustive sweep
+fn enum_params() -> Vec<P3> {
+    vec![
+        P3 { salt: vec![], iterations: 0, opt_out: false },
+        P3 { salt: SALT1.to_vec(), iterations: 1, opt_out: false },
+        P3 { salt: vec![], iterations: 0, opt_out: true },
+        P3 { salt: SALT8.to_vec(), iterations: 5, opt_out: true },
+    ]
+}
+
+// ---------------------------------------------------------------------------------------------
+
+pub struct Sound3 {
+    pub zone: Zone,
+    pub apex: Name,
+    pub params: Nsec3Params,
+    pub ring: Vec<Nsec3Rec>,
+    pub hk: Vec<(Name, NSEC3)>,
+}
+
+type SoundKey = (ZText, P3);
+
+thread_local! {
+    static SOUND: RefCell<Vec<(SoundKey, Rc<Sound3>)>> = const { RefCell::new(Vec::new()) };
+    static HK: RefCell<Option<(SoundKey, Rc<(Zone, HkZone)>)>> = const { RefCell::new(None) };
+}
+
+fn build_sound(z: &ZText, p: &P3) -> Result<Sound3, Fail> {
+    let zone = parse_zone(z)?;
+    let params = p.model();
+    let ring = nsec3_ring(&zone, &params);
+    let hk = ring.iter().map(|r| hk_nsec3(&zone.apex, &params, r)).collect();
+    Ok(Sound3 {
+        apex: to_name(&zone.apex),
+        zone,
+        params,
+        ring,
+        hk,
+    })
+}
+
+fn sound_ctx(z: &ZText, p: &P3) -> Result<Rc<Sound3>, Fail> {
+    SOUND.with(|c| {
+        let mut c = c.borrow_mut();
+        if let Some((_, v)) = c.iter().find(|(k, _)| k.0 == *z && k.1 == *p) {
+            return Ok(v.clone());
+        }
+        let v = Rc::new(build_sound(z, p)?);
+        if c.len() >= 4 {
+            c.remove(0);
+        }
+        c.push(((z.clone(), p.clone()), v.clone()));
+        Ok(v)
+    })
+}
+
+fn hk_ctx(z: &ZText, p: &P3) -> Result<Rc<(Zone, HkZone)>, Fail> {
+    HK.with(|c| {
+        let mut c = c.borrow_mut();
+        if let Some((k, v)) = c.as_ref() {
+            if k.0 == *z && k.1 == *p {
+                return Ok(v.clone());
+            }
+        }
+        let zone = parse_zone(z)?;
+        let hz = zb::build_hk_zone(&zone, &NxKind::Nsec3(p.model())).map_err(|e| Fail::new("harness-zone-build", e))?;
+        let v = Rc::new((zone, hz));
+        *c = Some(((z.clone(), p.clone()), v.clone()));
+        Ok(v)
+    })
+}
+
+fn render_rec(r: &Nsec3Rec) -> String {
+    format!(
+        "H({})={}.. -> {}.. ({}){}",
+        show(&r.orig),
+        &data_encoding::BASE32_DNSSEC.encode(&r.hash)[..6],
+        &data_encoding::BASE32_DNSSEC.encode(&r.next_hash)[..6],
+        r.types.iter().map(|t| ty::mnemonic(*t)).collect::<Vec<_>>().join(" "),
+        if r.opt_out { " OPT-OUT" } else { "" }
+    )
+}
+
+fn render_subset(ring: &[Nsec3Rec], mask: u32) -> String {
+    ring.iter()
+        .enumerate()
+        .filter(|(i, _)| mask >> i & 1 == 1)
+        .map(|(_, r)| render_rec(r))
+        .collect::<Vec<_>>()
+        .join("; ")
+}
+
+// ---------------------------------------------------------------------------------------------
+// soundness + iteration limits
+
+#[derive(Clone, Debug, Serialize, Deserialize)]
+pub struct Sound3Case {
+    pub zone: ZText,
+    pub params: P3,
+    pub q: ZText,
+    pub qtypes: Vec<u16>,
+    /// 0 = all non-empty subsets of the ring
+    pub mask_seed: u64,
+    pub soft: u16,
+    pub hard: u16,
+}
+
+/// RFC 5155 §6 / §8.6: a covering Opt-Out NSEC3 "does not assert the existence or non-existence
+/// of the insecure delegations that it may cover" — it can only support "there is no DS here".
+/// Such a NODATA/DS verdict is acceptable when the zone really has no DS at the name and the name
+/// is not at or below a *secure* delegation.
+fn optout_ds_absence_ok(cx: &Sound3, q: &[Vec<u8>], qtype: u16, claim: Claim, truth: &Truth) -> bool {
+    if !(cx.params.opt_out && qtype == ty::DS && claim == Claim::NoData) {
+        return false;
+    }
+    match truth {
+        // the name is not in the zone's tree: it may as well be an insecure delegation added
+        // without re-signing (§6); whatever a wildcard would synthesise, "no DS" is what §8.6
+        // lets the validator conclude
+        Truth::NxDomain { .. } | Truth::WildAnswer { .. } => cx.zone.exist(q) == Exist::No,
+        Truth::Referral { cut, at_cut: false } => !cx.zone.types_at(cut).contains(&ty::DS),
+        _ => false,
+    }
+}
+
+fn in_ring(cx: &Sound3, mask: u32, name: &[Vec<u8>]) -> bool {
+    cx.ring
+        .iter()
+        .enumerate()
+        .any(|(i, r)| mask >> i & 1 == 1 && canon::name_eq(&r.orig, name))
+}
+
+/// is `name`'s hash strictly inside the interval of a selected record (RFC 5155 §1.3 "cover")
+fn covered_by(cx: &Sound3, mask: u32, name: &[Vec<u8>]) -> Option<usize> {
+    let h = nsec3_hash(name, &cx.params.salt, cx.params.iterations);
+    cx.ring.iter().enumerate().position(|(i, r)| {
+        mask >> i & 1 == 1
+            && if r.hash < r.next_hash {
+                r.hash < h && h < r.next_hash
+            } else {
+                h > r.hash || h < r.next_hash
+            }
+    })
+}
+
+/// the proof elements RFC 5155 §8 asks for, read off a selection of ring records
+struct Needs {
+    /// alternatives; each alternative is a list of names that must be *covered*
+    alternatives: Vec<Vec<Vec<Vec<u8>>>>,
+}
+
+/// longest proper ancestor of q (down to the apex) whose NSEC3 is selected
+fn selected_encloser(cx: &Sound3, q: &[Vec<u8>], mask: u32) -> Option<Vec<Vec<u8>>> {
+    if !canon::is_suffix(&cx.zone.apex, q) {
+        return None;
+    }
+    (cx.zone.apex.len()..q.len())
+        .rev()
+        .map(|len| q[q.len() - len..].to_vec())
+        .find(|anc| in_ring(cx, mask, anc))
+}
+
+fn needs_for(cx: &Sound3, q: &[Vec<u8>], qtype: u16, claim: Claim, mask: u32) -> Needs {
+    let ce = selected_encloser(cx, q, mask);
+    let nc = |ce: &Vec<Vec<u8>>| q[q.len() - ce.len() - 1..].to_vec();
+    let mut alternatives = Vec::new();
+    match claim {
+        // §8.4: closest encloser proof + cover of the wildcard at the closest encloser
+        Claim::NxDomain | Claim::NxWithWildAnswer { .. } => {
+            if let Some(ce) = &ce {
+                alternatives.push(vec![nc(ce), wildcard_of(ce)]);
+            }
+        }
+        Claim::NoData => {
+            if !in_ring(cx, mask, q) {
+                // §8.6: DS, no matching record: Opt-Out cover
+                if qtype == ty::DS && cx.params.opt_out {
+                    alternatives.push(vec![q.to_vec()]);
+                }
+                // §8.7: wildcard NODATA: closest encloser proof + matching wildcard
+                if let Some(ce) = &ce {
+                    alternatives.push(vec![nc(ce)]);
+                }
+            }
+        }
+        // §8.8: cover of the next closer name below the wildcard's parent
+        Claim::WildAnswer { labels } => {
+            if (labels as usize) < q.len() {
+                alternatives.push(vec![q[q.len() - labels as usize - 1..].to_vec()]);
+            }
+        }
+    }
+    Needs { alternatives }
+}
+
+/// hickory's `find_covering_record` takes the wrap-around branch for the record whose owner hash
+/// is greater than its next hash and then accepts *every* target (`owner > t || t > next`). The
+/// acceptance of `mask` rests on that when the wrap-around record is selected and every way to
+/// the verdict needs a cover that no selected record really provides.
+fn rests_on_false_wrap_cover(cx: &Sound3, q: &[Vec<u8>], qtype: u16, claim: Claim, mask: u32) -> bool {
+    let Some(w) = cx.ring.iter().position(|r| r.hash > r.next_hash) else {
+        return false;
+    };
+    if cx.ring.len() < 2 || mask >> w & 1 == 0 {
+        return false;
+    }
+    let needs = needs_for(cx, q, qtype, claim, mask);
+    !needs.alternatives.is_empty()
+        && needs
+            .alternatives
+            .iter()
+            .all(|alt| alt.iter().any(|n| covered_by(cx, mask, n).is_none()))
+}
+
+/// exists in the zone's tree but has no NSEC3 because the zone opts out (insecure delegation, or
+/// empty non-terminal that only leads to insecure delegations — RFC 5155 §7.1)
+fn hidden_by_optout(cx: &Sound3, name: &[Vec<u8>]) -> bool {
+    cx.params.opt_out
+        && cx.zone.exist(name) != Exist::No
+        && !cx.ring.iter().any(|r| canon::name_eq(&r.orig, name))
+}
+
+fn classify_unsound(
+    cx: &Sound3,
+    q: &[Vec<u8>],
+    qtype: u16,
+    claim: Claim,
+    truth: &Truth,
+    soa: bool,
+    mask: u32,
+) -> String {
+    let _ = (soa, &is_wildcard_name);
+    let apex = &cx.zone.apex;
+    if claim == Claim::NoData && canon::name_eq(q, apex) && !in_ring(cx, mask, apex) {
+        // validate_nodata_response: "(None, None, None) if query name == SOA name => Secure"
+        return "nsec3-apex-nodata-accepted-without-matching-record".into();
+    }
+    let q_matched = in_ring(cx, mask, q);
+    let optout_ds_path = qtype == ty::DS && cx.params.opt_out && !q_matched && covered_by(cx, mask, q).is_some();
+    if let Claim::WildAnswer { .. } = claim {
+        // RFC 5155 §8.8: a wildcard answer needs a *cover* of the next closer name; hickory
+        // first runs the NODATA branches (matching record without the type; DS + Opt-Out cover),
+        // which return Secure without looking at the answer section
+        if q_matched || optout_ds_path {
+            return "nsec3-nodata-branches-ignore-answer-section".into();
+        }
+    }
+    if rests_on_false_wrap_cover(cx, q, qtype, claim, mask) {
+        return "nsec3-wraparound-record-covers-everything".into();
+    }
+    let claim = match (claim, truth) {
+        // RCODE=NXDOMAIN with an answer section: validate_nxdomain_response never looks at it
+        (Claim::NxWithWildAnswer { .. }, Truth::NxDomain { .. }) => {
+            return "nsec3-nxdomain-ignores-answer-section".into()
+        }
+        (Claim::NxWithWildAnswer { .. }, _) => Claim::NxDomain,
+        (c, _) => c,
+    };
+    // the name whose existence makes the claim false
+    let witness: Option<Vec<Vec<u8>>> = match (claim, truth) {
+        (_, Truth::Referral { cut, .. }) => Some(cut.clone()),
+        (Claim::NxDomain | Claim::WildAnswer { .. }, Truth::NoData { .. } | Truth::Positive) => Some(q.to_vec()),
+        (Claim::NxDomain, Truth::WildNoData { ce, .. } | Truth::WildAnswer { ce, .. }) => Some(wildcard_of(ce)),
+        (Claim::WildAnswer { labels }, Truth::NxDomain { ce } | Truth::WildNoData { ce, .. } | Truth::WildAnswer { ce, .. })
+            if ce.len() > labels as usize && (labels as usize) < q.len() =>
+        {
+            Some(q[q.len() - labels as usize - 1..].to_vec())
+        }
+        _ => None,
+    };
+    // RFC 5155 §6, §9.2: an Opt-Out span says nothing about what it spans; a closest encloser
+    // proof whose covering record has the Opt-Out flag must not yield Secure (only §8.6 DS absence)
+    // ... or the next closer name below the encloser the selection offers
+    let hidden_next_closer = selected_encloser(cx, q, mask)
+        .is_some_and(|e| e.len() < q.len() && hidden_by_optout(cx, &q[q.len() - e.len() - 1..]));
+    if witness.as_ref().is_some_and(|w| hidden_by_optout(cx, w)) || hidden_next_closer {
+        return "nsec3-optout-span-accepted-as-proof-of-nonexistence".into();
+    }
+    match (claim, truth) {
+        // §8.6 asks for a closest provable encloser proof; hickory accepts "DS and qname covered
+        // by an Opt-Out record" alone, also below a secure delegation
+        (Claim::NoData, _) if optout_ds_path => "nsec3-optout-ds-branch-not-rfc5155-8-6".into(),
+        // RFC 5155 §8.3 / RFC 6840 §4.1: an NSEC3 matching a delegation (NS without SOA) must
+        // not serve as closest encloser nor as NODATA proof for anything but DS
+        (_, Truth::Referral { cut, .. }) if in_ring(cx, mask, cut) => "nsec3-ancestor-delegation-nsec3-accepted".into(),
+        _ => format!("nsec3-unsound-{}-when-{}", claim.kind(), truth.kind()),
+    }
+}
+
+fn sound_body(c: &Sound3Case, rec: &mut Rec) -> CaseResult {
+    let cx = sound_ctx(&c.zone, &c.params)?;
+    let q = abs_q(&cx.zone, c.q.as_str());
+    let qn = to_name(&q);
+    let k = cx.ring.len();
+    let masks: Vec<u32> = if c.mask_seed == 0 && k <= 10 {
+        (1..(1u32 << k)).collect()
+    } else {
+        masks_for(k, c.mask_seed | 1, 40)
+    };
+    let over_hard = c.params.iterations > c.hard;
+    let over_soft = c.params.iterations > c.soft;
+    rec.class(zb::pos_class(&cx.zone, &q));
+    rec.class(format!("ring-len-{}", k.min(12)));
+    rec.class(format!(
+        "salt{}-iter{}-{}",
+        c.params.salt.len(),
+        if over_hard {
+            ">hard".to_string()
+        } else if over_soft {
+            ">soft".to_string()
+        } else if c.params.iterations == c.soft {
+            "=soft".to_string()
+        } else {
+            c.params.iterations.min(9).to_string()
+        },
+        if c.params.opt_out { "optout" } else { "plain" }
+    ));
+    let mut devs: Vec<Fail> = Vec::new();
+    let (mut calls, mut secure, mut secure_true, mut insecure, mut optout_ds) = (0u64, 0u64, 0u64, 0u64, 0u64);
+    for &qtype in &c.qtypes {
+        let truth = cx.zone.truth(&q, qtype);
+        rec.count(format!("truth/{}", truth.kind()), 1);
+        let query = Query::new(qn.clone(), rtype(qtype));
+        for cc in claims_for(&cx.zone, &q, &qn, &cx.apex, qtype) {
+            let expected = cx.zone.claim_true(&q, qtype, cc.claim);
+            let ds_ok = optout_ds_absence_ok(&cx, &q, qtype, cc.claim, &truth);
+            for soa in [Some(&cx.apex), None] {
+                let mut bad: Vec<u32> = Vec::new();
+                let mut limit_dev: Option<(u32, Proof)> = None;
+                for &mask in &masks {
+                    let sel: Vec<(&Name, &NSEC3)> = cx
+                        .hk
+                        .iter()
+                        .enumerate()
+                        .filter(|(i, _)| mask >> i & 1 == 1)
+                        .map(|(_, (n, d))| (n, d))
+                        .collect();
+                    let p = verify_nsec3(&query, soa, cc.rcode, &cc.answers, &sel, c.soft, c.hard);
+                    calls += 1;
+                    if over_hard {
+                        // RFC 9276 §3.2 as configured: above the hard limit => Bogus
+                        if p != Proof::Bogus && limit_dev.is_none() {
+                            limit_dev = Some((mask, p));
+                        }
+                        continue;
+                    }
+                    if over_soft {
+                        if p.is_secure() && limit_dev.is_none() {
+                            limit_dev = Some((mask, p));
+                        }
+                        if p == Proof::Insecure {
+                            insecure += 1;
+                        }
+                        continue;
+                    }
+                    if p.is_secure() {
+                        secure += 1;
+                        if expected {
+                            secure_true += 1;
+                        } else if ds_ok {
+                            optout_ds += 1;
+                        } else {
+                            bad.push(mask);
+                        }
+                    }
+                }
+                if let Some((mask, p)) = limit_dev {
+                    devs.push(Fail::new(
+                        if over_hard { "nsec3-over-hard-limit-not-bogus" } else { "nsec3-over-soft-limit-secure" },
+                        format!(
+                            "zone [{}] {} limits soft={} hard={} query {} {} claim {:?}: verdict {:?} on {{{}}}",
+                            cx.zone.render(),
+                            c.params.show(),
+                            c.soft,
+                            c.hard,
+                            qn,
+                            ty::mnemonic(qtype),
+                            cc.claim,
+                            p,
+                            render_subset(&cx.ring, mask)
+                        ),
+                    ));
+                }
+                if bad.is_empty() {
+                    continue;
+                }
+                // one deviation per distinct signature, each with its smallest witness subset
+                bad.sort_by_key(|m| m.count_ones());
+                let mut seen: Vec<String> = Vec::new();
+                for &mask in bad.iter().take(96) {
+                    let sig = classify_unsound(&cx, &q, qtype, cc.claim, &truth, soa.is_some(), mask);
+                    if seen.contains(&sig) {
+                        continue;
+                    }
+                    seen.push(sig.clone());
+                    devs.push(Fail::new(
+                        sig,
+                        format!(
+                            "zone [{}] {} query {} {} claim {:?} soa={} accepted as Secure on {{{}}} but the truth is {}",
+                            cx.zone.render(),
+                            c.params.show(),
+                            qn,
+                            ty::mnemonic(qtype),
+                            cc.claim,
+                            soa.map(|n| n.to_string()).unwrap_or_else(|| "-".into()),
+                            render_subset(&cx.ring, mask),
+                            truth
+                        ),
+                    ));
+                }
+            }
+        }
+    }
+    rec.count("verify_calls", calls);
+    rec.count("secure_verdicts", secure);
+    rec.count("secure_on_true_claim", secure_true);
+    rec.count("secure_optout_ds_absence", optout_ds);
+    rec.count("insecure_over_soft_limit", insecure);
+    if !matches!(cx.zone.pos(&q), Pos::Out) {
+        rec.nontrivial();
+        if (secure > 0 || over_soft) && rec.wants_note() {
+            rec.note(format!(
+                "zone [{}] {} limits {}/{} q={} types={:?}: {} verify_nsec3 calls over {} subsets of a {}-record ring, {} Secure ({} on true claims, {} opt-out DS absence), {} Insecure",
+                cx.zone.render(),
+                c.params.show(),
+                c.soft,
+                c.hard,
+                qn,
+                c.qtypes,
+                calls,
+                masks.len(),
+                k,
+                secure,
+                secure_true,
+                optout_ds,
+                insecure
+            ));
+        }
+    }
+    pick_deviation(devs, &NARROW_SIGS)
+}
+
+fn enum_cases(max_nodes: usize, stride: usize, offset: usize) -> Box<dyn Iterator<Item = Sound3Case> + Send> {
+    let zl = zones::enum_zones(zones::APEX2, &zones::U2_NAMES, max_nodes);
+    let qs: Vec<ZText> = zones::Q2_NAMES.iter().map(|s| ZText::new(s)).collect();
+    let ps = enum_params();
+    Box::new(
+        zl.into_iter()
+            .enumerate()
+            .filter(move |(i, _)| i % stride == offset % stride)
+            .flat_map(move |(_, z)| {
+                let qs = qs.clone();
+                ps.clone().into_iter().flat_map(move |p| {
+                    let z = z.clone();
+                    qs.clone().into_iter().map(move |q| Sound3Case {
+                        zone: z.clone(),
+                        params: p.clone(),
+                        q,
+                        qtypes: QTYPES4.to_vec(),
+                        mask_seed: 0,
+                        soft: 100,
+                        hard: 500,
+                    })
+                })
+            }),
+    )
+}
+
+fn resolve(zone: &ZText, pick: &zones::QPick) -> ZText {
+    let q = match Zone::parse(zone.as_str()) {
+        Ok(z) => zones::resolve_q(pick, &zb::owners_rel(&z)),
+        Err(_) => "@".into(),
+    };
+    ZText::new(&q)
+}
+
+fn sampled_sound(max_nodes: usize) -> impl Strategy<Value = Sound3Case> {
+    (zones::zone_text(max_nodes), p3_small(), zones::qpick(), zones::qtype_pick(), 1u64..u64::MAX).prop_map(
+        |(zone, params, pick, qtype, seed)| Sound3Case {
+            q: resolve(&zone, &pick),
+            zone,
+            params,
+            qtypes: vec![qtype],
+            mask_seed: seed,
+            soft: 100,
+            hard: 500,
+        },
+    )
+}
+
+/// iteration counts around configured limits: {0, 1, 5, soft, soft+1, hard, hard+1}
+fn sampled_limits() -> impl Strategy<Value = Sound3Case> {
+    let limits = prop_oneof![
+        3 => Just((0u16, 0u16)),
+        3 => Just((0u16, 1u16)),
+        3 => Just((1u16, 3u16)),
+        3 => Just((5u16, 5u16)),
+        3 => Just((5u16, 12u16)),
+        3 => Just((12u16, 50u16)),
+        1 => Just((100u16, 500u16)),
+    ];
+    (
+        zones::zone_text(5),
+        salt_pick(),
+        any::<bool>(),
+        limits,
+        0usize..7,
+        zones::qpick(),
+        zones::qtype_pick(),
+        1u64..u64::MAX,
+    )
+        .prop_map(|(zone, salt, opt_out, (soft, hard), which, pick, qtype, seed)| {
+            let iterations = [0, 1, 5, soft, soft + 1, hard, hard + 1][which];
+            Sound3Case {
+                q: resolve(&zone, &pick),
+                zone,
+                params: P3 { salt, iterations, opt_out },
+                qtypes: vec![qtype],
+                mask_seed: seed,
+                soft,
+                hard,
+            }
+        })
+}
+
+// ---------------------------------------------------------------------------------------------
+// mixtures with records of another parameter set / another zone
+
+#[derive(Clone, Debug, Serialize, Deserialize)]
+pub enum Foreign {
+    /// the same zone signed with another salt and/or iteration count (a second, genuinely signed
+    /// chain as during re-salting, RFC 5155 §10.2/§10.3)
+    SameZoneOtherParams(P3),
+    /// another zone (disjoint apex) with the given parameters (possibly identical ones)
+    OtherZone { zone: ZText, params: P3 },
+}
+
+#[derive(Clone, Debug, Serialize, Deserialize)]
+pub struct MixCase {
+    pub zone: ZText,
+    pub params: P3,
+    pub foreign: Foreign,
+    pub q: ZText,
+    pub qtype: u16,
+    pub seed: u64,
+}
+
+const FOREIGN_APEXES: [&str; 3] = ["other.", "ex2.test.", "y."];
+
+fn foreign_zone() -> impl Strategy<Value = ZText> {
+    (zones::zone_text(5), 0usize..3).prop_map(|(z, a)| {
+        let (_, rest) = z.as_str().split_once('|').unwrap();
+        ZText::new(&format!("{} |{}", FOREIGN_APEXES[a], rest))
+    })
+}
+
+fn sampled_mix() -> impl Strategy<Value = MixCase> {
+    let foreign = prop_oneof![
+        2 => p3_small().prop_map(Foreign::SameZoneOtherParams),
+        3 => (foreign_zone(), p3_small(), any::<bool>()).prop_map(|(zone, params, same)| (zone, params, same))
+            .prop_map(|(zone, params, same)| Foreign::OtherZone { zone, params: if same { P3 { salt: vec![0xFF], iterations: u16::MAX, opt_out: false } } else { params } }),
+    ];
+    (zones::zone_text(6), p3_small(), foreign, zones::qpick(), zones::qtype_pick(), 1u64..u64::MAX).prop_map(
+        |(zone, params, foreign, pick, qtype, seed)| {
+            // marker params (iterations = u16::MAX) mean "same parameters as the zone"
+            let foreign = match foreign {
+                Foreign::OtherZone { zone: fz, params: fp } if fp.iterations == u16::MAX => Foreign::OtherZone {
+                    zone: fz,
+                    params: params.clone(),
+                },
+                Foreign::SameZoneOtherParams(fp) if fp.salt == params.salt && fp.iterations == params.iterations => {
+                    Foreign::SameZoneOtherParams(P3 {
+                        salt: fp.salt,
+                        iterations: fp.iterations + 2,
+                        opt_out: fp.opt_out,
+                    })
+                }
+                f => f,
+            };
+            MixCase {
+                q: resolve(&zone, &pick),
+                zone,
+                params,
+                foreign,
+                qtype,
+                seed,
+            }
+        },
+    )
+}
+
+fn mix_body(c: &MixCase, rec: &mut Rec) -> CaseResult {
+    let cx = sound_ctx(&c.zone, &c.params)?;
+    let (fx, kind) = match &c.foreign {
+        Foreign::SameZoneOtherParams(p) => (sound_ctx(&c.zone, p)?, "same-zone-other-params"),
+        Foreign::OtherZone { zone, params } => (
+            sound_ctx(zone, params)?,
+            if *params == c.params { "other-zone-same-params" } else { "other-zone-other-params" },
+        ),
+    };
+    rec.class(kind);
+    let q = abs_q(&cx.zone, c.q.as_str());
+    let qn = to_name(&q);
+    rec.class(zb::pos_class(&cx.zone, &q));
+    let (k, m) = (cx.ring.len(), fx.ring.len());
+    let mut rng = MaskRng(c.seed);
+    let mut devs = Vec::new();
+    let (mut calls, mut secure, mut unused) = (0u64, 0u64, 0u64);
+    let query = Query::new(qn.clone(), rtype(c.qtype));
+    let truth = cx.zone.truth(&q, c.qtype);
+    for cc in claims_for(&cx.zone, &q, &qn, &cx.apex, c.qtype) {
+        for soa in [Some(&cx.apex), None] {
+            let mut first: Option<(u32, u32)> = None;
+            let same_zone = matches!(c.foreign, Foreign::SameZoneOtherParams(_));
+            for round in 0..24 {
+                // genuine part: may be empty for another zone's records (a set made only of
+                // records of the same zone under other parameters is a consistent chain of that
+                // zone and may legitimately be accepted); foreign part: never empty
+                let mut gm = match round % 4 {
+                    0 if !same_zone => 0,
+                    1 => (1u32 << k) - 1,
+                    _ => (rng.next() as u32) & ((1u32 << k) - 1),
+                };
+                if same_zone && gm == 0 {
+                    gm = 1 << (rng.next() as usize % k);
+                }
+                let mut fm = (rng.next() as u32) & ((1u32 << m) - 1);
+                if fm == 0 || round % 6 == 5 {
+                    fm = (1u32 << m) - 1;
+                }
+                let foreign_first = rng.next() & 1 == 0;
+                let g: Vec<(&Name, &NSEC3)> =
+                    cx.hk.iter().enumerate().filter(|(i, _)| gm >> i & 1 == 1).map(|(_, (n, d))| (n, d)).collect();
+                let f = fx.hk.iter().enumerate().filter(|(i, _)| fm >> i & 1 == 1).map(|(_, (n, d))| (n, d));
+                let mut sel: Vec<(&Name, &NSEC3)> = Vec::new();
+                if foreign_first {
+                    sel.extend(f);
+                    sel.extend(g.iter().copied());
+                } else {
+                    sel.extend(g.iter().copied());
+                    sel.extend(f);
+                }
+                let p = verify_nsec3(&query, soa, cc.rcode, &cc.answers, &sel, 100, 500);
+                calls += 1;
+                if p.is_secure() {
+                    secure += 1;
+                    // metamorphic guard: the foreign records are load-bearing only if the genuine
+                    // part alone is not accepted (unused extra records in a response are harmless)
+                    let genuine_alone = !g.is_empty()
+                        && verify_nsec3(&query, soa, cc.rcode, &cc.answers, &g, 100, 500).is_secure();
+                    if genuine_alone && !same_zone {
+                        unused += 1;
+                        continue;
+                    }
+                    if first.is_none() {
+                        first = Some((gm, fm));
+                    }
+                }
+            }
+            if let Some((gm, fm)) = first {
+                let sig = match (&c.foreign, soa.is_some()) {
+                    // verify_nsec3 ties the records to a zone only through the SOA name
+                    (Foreign::OtherZone { .. }, false) => "nsec3-foreign-zone-records-accepted-without-soa".to_string(),
+                    (Foreign::OtherZone { .. }, true) => "nsec3-foreign-zone-records-accepted-with-soa".to_string(),
+                    (Foreign::SameZoneOtherParams(_), _) => "nsec3-mixed-parameter-sets-accepted".to_string(),
+                };
+                devs.push(Fail::new(
+                    sig,
+                    format!(
+                        "zone [{}] {} query {} {} claim {:?} soa={} (truth {}): Secure on genuine {{{}}} + foreign ({kind}) {{{}}} from [{}] {}",
+                        cx.zone.render(),
+                        c.params.show(),
+                        qn,
+                        ty::mnemonic(c.qtype),
+                        cc.claim,
+                        soa.map(|n| n.to_string()).unwrap_or_else(|| "-".into()),
+                        truth,
+                        render_subset(&cx.ring, gm),
+                        render_subset(&fx.ring, fm),
+                        fx.zone.render(),
+                        P3 { salt: fx.params.salt.clone(), iterations: fx.params.iterations, opt_out: fx.params.opt_out }.show(),
+                    ),
+                ));
+            }
+        }
+    }
+    rec.count("secure_with_unused_foreign_records", unused);
+    rec.count("verify_calls", calls);
+    rec.count("secure_verdicts", secure);
+    rec.nontrivial();
+    if rec.wants_note() {
+        rec.note(format!(
+            "zone [{}] {} + {} records of {kind} [{}]: q={} {}: {} calls, {} Secure",
+            cx.zone.render(),
+            c.params.show(),
+            m,
+            fx.zone.render(),
+            qn,
+            ty::mnemonic(c.qtype),
+            calls,
+            secure
+        ));
+    }
+    pick_deviation(devs, &NARROW_SIGS)
+}
+
+// ---------------------------------------------------------------------------------------------
+// completeness
+
+#[derive(Clone, Debug, Serialize, Deserialize)]
+pub struct Comp3Case {
+    pub zone: ZText,
+    pub params: P3,
+    pub q: ZText,
+    pub qtype: u16,
+}
+
+fn render_nsec3s(n: &[(Name, NSEC3)]) -> String {
+    n.iter()
+        .map(|(o, d)| {
+            format!(
+                "{} -> {} ({}){}",
+                o,
+                d.next_hashed_owner_name_base32().map(|l| l.to_string()).unwrap_or_default(),
+                d.type_bit_maps().map(|t| t.to_string()).collect::<Vec<_>>().join(" "),
+                if d.opt_out() { " OPT-OUT" } else { "" }
+            )
+        })
+        .collect::<Vec<_>>()
+        .join("; ")
+}
+
+/// hickory's actual ring as model records (original owner names recovered through the model
+/// ring's hashes), hash order
+pub fn hk_ring(zone: &Zone, p: &Nsec3Params, hz: &HkZone) -> Vec<Nsec3Rec> {
+    let model = nsec3_ring(zone, p);
+    let mut v: Vec<Nsec3Rec> = hz
+        .chain_nsec3
+        .iter()
+        .filter_map(|(o, d)| {
+            let label = o.iter().next()?.to_ascii_lowercase();
+            let hash = data_encoding::BASE32_DNSSEC.decode(&label).ok()?;
+            Some(Nsec3Rec {
+                orig: model.iter().find(|m| m.hash == hash).map(|m| m.orig.clone()).unwrap_or_default(),
+                hash,
+                next_hash: d.next_hashed_owner_name().to_vec(),
+                types: d.type_bit_maps().map(u16::from).collect(),
+                opt_out: d.opt_out(),
+            })
+        })
+        .collect();
+    v.sort_by(|a, b| a.hash.cmp(&b.hash));
+    v
+}
+
+/// is the (missing) NSEC3 of the empty non-terminal `*.<apex>` part of what a proof about q needs
+fn star_ent_relevant(zone: &Zone, q: &[Vec<u8>], truth: &Truth) -> bool {
+    let star = wildcard_of(&zone.apex);
+    canon::is_suffix(&star, q)
+        || matches!(truth, Truth::NxDomain { ce } | Truth::WildAnswer { ce, .. } | Truth::WildNoData { ce, .. }
+            if canon::name_eq(ce, &zone.apex) || canon::name_eq(ce, &star))
+}
+
+/// RFC 5155 §7.2: which ring records a correct server attaches; `None` when the zone's Opt-Out
+/// hides a name the answer hinges on (then no Secure proof exists by design)
+fn required_proof(
+    zone: &Zone,
+    p: &Nsec3Params,
+    ring: &[Nsec3Rec],
+    q: &[Vec<u8>],
+    truth: &Truth,
+) -> Option<Vec<(&'static str, Vec<u8>)>> {
+    let has = |n: &[Vec<u8>]| ring.iter().find(|r| canon::name_eq(&r.orig, n)).map(|r| r.hash.clone());
+    let cover = |n: &[Vec<u8>]| {
+        let h = nsec3_hash(n, &p.salt, p.iterations);
+        ring.iter()
+            .find(|r| {
+                if r.hash < r.next_hash {
+                    r.hash < h && h < r.next_hash
+                } else {
+                    ring.len() == 1 || h > r.hash || h < r.next_hash
+                }
+            })
+            .map(|r| r.hash.clone())
+    };
+    let hidden = |n: &[Vec<u8>]| p.opt_out && zone.exist(n) != Exist::No && has(n).is_none();
+    // closest provable encloser
+    let pce = (zone.apex.len()..q.len()).rev().map(|len| q[q.len() - len..].to_vec()).find(|a| has(a).is_some());
+    let nc = |e: &Vec<Vec<u8>>| q[q.len() - e.len() - 1..].to_vec();
+    let mut out = Vec::new();
+    match truth {
+        Truth::NoData { at_cut: true, .. } if has(q).is_none() => {
+            // §7.2.4: insecure delegation without NSEC3: closest provable encloser + Opt-Out cover
+            let e = pce?;
+            out.push(("closest-encloser-match", has(&e)?));
+            out.push(("next-closer-cover", cover(&nc(&e))?));
+        }
+        Truth::NoData { .. } => {
+            if hidden(q) {
+                return None;
+            }
+            out.push(("qname-match", has(q)?));
+        }
+        Truth::NxDomain { ce } | Truth::WildNoData { ce, .. } | Truth::WildAnswer { ce, .. } => {
+            let e = pce?;
+            if e.len() != ce.len() || hidden(&wildcard_of(ce)) {
+                return None;
+            }
+            match truth {
+                Truth::NxDomain { .. } => {
+                    out.push(("closest-encloser-match", has(&e)?));
+                    out.push(("next-closer-cover", cover(&nc(&e))?));
+                    out.push(("wildcard-cover", cover(&wildcard_of(&e))?));
+                }
+                Truth::WildNoData { .. } => {
+                    out.push(("closest-encloser-match", has(&e)?));
+                    out.push(("next-closer-cover", cover(&nc(&e))?));
+                    out.push(("wildcard-match", has(&wildcard_of(&e))?));
+                }
+                _ => out.push(("next-closer-cover", cover(&nc(&e))?)),
+            }
+        }
+        _ => return None,
+    }
+    Some(out)
+}
+
+fn classify_incomplete(
+    zone: &Zone,
+    p: &P3,
+    hz: &HkZone,
+    q: &[Vec<u8>],
+    qtype: u16,
+    truth: &Truth,
+    parts: &zb::NegParts,
+) -> String {
+    let params = p.model();
+    if hk_ring_lacks_star_ent(zone, &params, hz) && star_ent_relevant(zone, q, truth) {
+        return "nsec3-chain-omits-asterisk-ent-below-apex".into();
+    }
+    let Some(req) = required_proof(zone, &params, &hk_ring(zone, &params, hz), q, truth) else {
+        return format!("nsec3-incomplete-{}", truth.kind());
+    };
+    let attached = |h: &Vec<u8>| {
+        let label = data_encoding::BASE32_DNSSEC.encode(h);
+        parts
+            .nsec3s
+            .iter()
+            .any(|(o, _)| o.iter().next().is_some_and(|l| l.eq_ignore_ascii_case(label.as_bytes())))
+    };
+    if let Some((what, _)) = req.iter().find(|(_, h)| !attached(h)) {
+        // server side: a required record is not in the response
+        return if *what == "wildcard-cover" && qtype == ty::DS {
+            // InnerInMemory::proof: "else if qtype != RecordType::DS"
+            "nsec3-server-nxdomain-proof-lacks-wildcard-cover-for-ds".into()
+        } else {
+            format!("nsec3-server-proof-lacks-{what}")
+        };
+    }
+    // validator side: everything RFC 5155 §7.2 asks for was attached and still rejected
+    match truth {
+        Truth::NoData { at_cut: true, .. } if p.opt_out => "nsec3-optout-ds-branch-not-rfc5155-8-6".into(),
+        t => format!("nsec3-incomplete-{}", t.kind()),
+    }
+}
+
+struct CompEval {
+    truth: Truth,
+    parts: zb::NegParts,
+    sk: ServerKind,
+    agree: bool,
+    direct: Option<Proof>,
+}
+
+fn comp_eval(zone: &Zone, hz: &HkZone, q: &[Vec<u8>], qn: &Name, qtype: u16) -> Result<Option<CompEval>, Fail> {
+    let truth = zone.truth(q, qtype);
+    if !truth.is_negative_or_wild() {
+        return Ok(None);
+    }
+    let m = zb::ask(hz, qn, rtype(qtype)).map_err(|e| Fail::new("harness-ask", e))?;
+    let parts = zb::split_response(&m);
+    let sk = server_kind(&parts);
+    let agree = kinds_agree(&truth, &sk);
+    let sel: Vec<(&Name, &NSEC3)> = parts.nsec3s.iter().map(|(n, d)| (n, d)).collect();
+    let direct = (!sel.is_empty()).then(|| {
+        verify_nsec3(
+            &Query::new(qn.clone(), rtype(qtype)),
+            parts.soa_name.as_ref(),
+            parts.rcode,
+            &parts.answers,
+            &sel,
+            100,
+            500,
+        )
+    });
+    Ok(Some(CompEval {
+        truth,
+        parts,
+        sk,
+        agree,
+        direct,
+    }))
+}
+
+fn comp_judge(
+    zone: &Zone,
+    p: &P3,
+    hz: &HkZone,
+    q: &[Vec<u8>],
+    qtype: u16,
+    ev: &CompEval,
+    secure: bool,
+    render: &dyn Fn() -> String,
+) -> CaseResult {
+    match (ev.agree, secure) {
+        (true, true) => Ok(()),
+        (true, false) if ev.parts.nsec3s.is_empty() => triage(Fail::new("nsec3-server-attached-no-nsec3", render())),
+        (true, false) => triage(Fail::new(classify_incomplete(zone, p, hz, q, qtype, &ev.truth, &ev.parts), render())),
+        (false, false) => triage(Fail::new(shape_sig(q, &ev.truth, &ev.sk), render())),
+        (false, true) => {
+            let claim = match ev.sk {
+                ServerKind::NxDomain => Claim::NxDomain,
+                ServerKind::NoData => Claim::NoData,
+                ServerKind::WildAnswer(l) => Claim::WildAnswer { labels: l },
+                _ => Claim::NoData,
+            };
+            let params = p.model();
+            let ring = hk_ring(zone, &params, hz);
+            let mut mask = 0u32;
+            for (i, r) in ring.iter().enumerate() {
+                let (o, _) = hk_nsec3(&zone.apex, &params, r);
+                if ev.parts.nsec3s.iter().any(|(n, _)| *n == o) {
+                    mask |= 1 << i;
+                }
+            }
+            let scx = Sound3 {
+                zone: zone.clone(),
+                apex: to_name(&zone.apex),
+                params,
+                ring,
+                hk: vec![],
+            };
+            if optout_ds_absence_ok(&scx, q, qtype, claim, &ev.truth) {
+                return Ok(());
+            }
+            if hk_ring_lacks_star_ent(zone, &scx.params, hz) && star_ent_relevant(zone, q, &ev.truth) {
+                // the validator is given a ring without the ENT that would contradict the claim
+                return triage(Fail::new(
+                    "nsec3-chain-omits-asterisk-ent-below-apex",
+                    format!("{} although the claim is false in the zone", render()),
+                ));
+            }
+            triage(Fail::new(
+                classify_unsound(&scx, q, qtype, claim, &ev.truth, ev.parts.soa_name.is_some(), mask),
+                format!("{} although the claim is false in the zone", render()),
+            ))
+        }
+    }
+}
+
+fn comp_body(c: &Comp3Case, rec: &mut Rec) -> CaseResult {
+    let cx = hk_ctx(&c.zone, &c.params)?;
+    let (zone, hz) = (&cx.0, &cx.1);
+    let q = abs_q(zone, c.q.as_str());
+    let qn = to_name(&q);
+    let Some(ev) = comp_eval(zone, hz, &q, &qn, c.qtype)? else {
+        rec.discard(format!("truth-{}", zone.truth(&q, c.qtype).kind()));
+        return Ok(());
+    };
+    if ev.agree && required_proof(zone, &c.params.model(), &nsec3_ring(zone, &c.params.model()), &q, &ev.truth).is_none() {
+        // Opt-Out hides a name the answer hinges on: RFC 5155 §9.2 allows no Secure verdict
+        rec.discard("optout-hides-a-name-the-answer-hinges-on");
+        return Ok(());
+    }
+    rec.class(format!("truth-{}", ev.truth.kind()));
+    rec.class(format!("attached-nsec3s-{}", ev.parts.nsec3s.len()));
+    rec.class(if ev.agree { "server-shape-as-truth" } else { "server-shape-differs" });
+    rec.class(if c.params.opt_out { "optout" } else { "plain" });
+    rec.nontrivial();
+    let render = || {
+        format!(
+            "zone [{}] {} query {} {} truth {}: server answered {:?} (soa={:?}) nsec3s {{{}}} -> verify_nsec3 = {:?}",
+            zone.render(),
+            c.params.show(),
+            qn,
+            ty::mnemonic(c.qtype),
+            ev.truth,
+            ev.sk,
+            ev.parts.soa_name.as_ref().map(|n| n.to_string()),
+            render_nsec3s(&ev.parts.nsec3s),
+            ev.direct
+        )
+    };
+    if rec.wants_note() {
+        rec.note(render());
+    }
+    let secure = ev.direct.is_some_and(|p| p.is_secure());
+    comp_judge(zone, &c.params, hz, &q, c.qtype, &ev, secure, &render)
+}
+
+fn e2e_body(c: &Comp3Case, rec: &mut Rec) -> CaseResult {
+    let cx = hk_ctx(&c.zone, &c.params)?;
+    let (zone, hz) = (&cx.0, &cx.1);
+    let q = abs_q(zone, c.q.as_str());
+    let qn = to_name(&q);
+    let Some(ev) = comp_eval(zone, hz, &q, &qn, c.qtype)? else {
+        rec.discard(format!("truth-{}", zone.truth(&q, c.qtype).kind()));
+        return Ok(());
+    };
+    if ev.agree && required_proof(zone, &c.params.model(), &nsec3_ring(zone, &c.params.model()), &q, &ev.truth).is_none() {
+        rec.discard("optout-hides-a-name-the-answer-hinges-on");
+        return Ok(());
+    }
+    let v = super::c08::e2e_query(hz, &qn, c.qtype, Some((100, 500)))?;
+    let e2e_secure = matches!(v, E2eVerdict::Accepted { all_secure: true, .. });
+    let direct_secure = ev.direct.is_some_and(|p| p.is_secure());
+    rec.class(format!("truth-{}", ev.truth.kind()));
+    rec.class(if ev.agree { "server-shape-as-truth" } else { "server-shape-differs" });
+    rec.class(format!(
+        "e2e-{}",
+        match &v {
+            E2eVerdict::Accepted { all_secure: true, .. } => "secure",
+            E2eVerdict::Accepted { .. } => "accepted-not-all-secure",
+            E2eVerdict::NsecRejected(_) => "nsec-rejected",
+            E2eVerdict::OtherError(_) => "other-error",
+        }
+    ));
+    rec.nontrivial();
+    let render = || {
+        format!(
+            "zone [{}] {} query {} {} truth {}: server answered {:?} nsec3s {{{}}}; direct verify_nsec3 = {:?}; DnssecDnsHandle = {:?}",
+            zone.render(),
+            c.params.show(),
+            qn,
+            ty::mnemonic(c.qtype),
+            ev.truth,
+            ev.sk,
+            render_nsec3s(&ev.parts.nsec3s),
+            ev.direct,
+            v
+        )
+    };
+    if rec.wants_note() {
+        rec.note(render());
+    }
+    if let E2eVerdict::OtherError(e) = &v {
+        return triage(Fail::new("nsec3-e2e-other-error", format!("{}: {e}", render())));
+    }
+    if e2e_secure != direct_secure {
+        let sig = if e2e_secure { "nsec3-e2e-secure-but-direct-not" } else { "nsec3-e2e-rejects-what-direct-accepts" };
+        return triage(Fail::new(sig, render()));
+    }
+    comp_judge(zone, &c.params, hz, &q, c.qtype, &ev, e2e_secure, &render)
+}
+
+fn comp_enum_cases(max_nodes: usize) -> Box<dyn Iterator<Item = Comp3Case> + Send> {
+    let zl = zones::enum_zones(zones::APEX2, &zones::U2_NAMES, max_nodes);
+    let ps = enum_params();
+    Box::new(zl.into_iter().flat_map(move |zt| {
+        let zone = Zone::parse(zt.as_str()).expect("enumerated zones parse");
+        let mut v = Vec::new();
+        for p in &ps {
+            for qs in zones::Q2_NAMES {
+                let q = abs_q(&zone, qs);
+                for t in QTYPES4 {
+                    if zone.truth(&q, t).is_negative_or_wild() {
+                        v.push(Comp3Case {
+                            zone: zt.clone(),
+                            params: p.clone(),
+                            q: ZText::new(qs),
+                            qtype: t,
+                        });
+                    }
+                }
+            }
+        }
+        v.into_iter()
+    }))
+}
+
+fn sampled_comp(max_nodes: usize) -> impl Strategy<Value = Comp3Case> {
+    (super::c08::sampled_comp(max_nodes), p3_small()).prop_map(|(c, params)| Comp3Case {
+        zone: c.zone,
+        params,
+        q: c.q,
+        qtype: c.qtype,
+    })
+}
+
+// ---------------------------------------------------------------------------------------------
+// the ring hickory generates = the ring RFC 5155 §7.1 prescribes (the property's state anchor)
+
+#[derive(Clone, Debug, Serialize, Deserialize)]
+pub struct Chain3Case {
+    pub zone: ZText,
+    pub params: P3,
+}
+
+/// does hickory's ring lack the NSEC3 of the empty non-terminal `*.<apex>` that the model has
+pub fn hk_ring_lacks_star_ent(zone: &Zone, p: &Nsec3Params, hz: &HkZone) -> bool {
+    let star = wildcard_of(&zone.apex);
+    let ring = nsec3_ring(zone, p);
+    ring.iter().any(|r| canon::name_eq(&r.orig, &star) && r.types.is_empty())
+        && !hz
+            .chain_nsec3
+            .iter()
+            .any(|(o, _)| *o == hk_nsec3(&zone.apex, p, ring.iter().find(|r| canon::name_eq(&r.orig, &star)).unwrap()).0)
+}
+
+fn chain_body(c: &Chain3Case, rec: &mut Rec) -> CaseResult {
+    let cx = hk_ctx(&c.zone, &c.params)?;
+    let (zone, hz) = (&cx.0, &cx.1);
+    let params = c.params.model();
+    let ring = nsec3_ring(zone, &params);
+    rec.class(format!("ring-len-{}", ring.len().min(12)));
+    rec.class(if c.params.opt_out { "optout" } else { "plain" });
+    if ring.iter().any(|r| r.types.is_empty()) {
+        rec.class("with-ent");
+    }
+    rec.nontrivial();
+    let core = |t: &mut dyn Iterator<Item = u16>| -> Vec<u16> {
+        let mut v: Vec<u16> = t.filter(|t| *t != ty::RRSIG).collect();
+        v.sort_unstable();
+        v
+    };
+    type Row = (String, String, Vec<u16>, bool, String);
+    let want: Vec<Row> = ring
+        .iter()
+        .map(|r| {
+            (
+                data_encoding::BASE32_DNSSEC.encode(&r.hash),
+                data_encoding::BASE32_DNSSEC.encode(&r.next_hash),
+                core(&mut r.types.iter().copied()),
+                r.opt_out,
+                show(&r.orig),
+            )
+        })
+        .collect();
+    let mut got: Vec<Row> = hz
+        .chain_nsec3
+        .iter()
+        .map(|(o, d)| {
+            (
+                String::from_utf8_lossy(o.iter().next().unwrap_or(b"")).to_ascii_lowercase(),
+                data_encoding::BASE32_DNSSEC.encode(d.next_hashed_owner_name()),
+                core(&mut d.type_bit_maps().map(u16::from)),
+                d.opt_out(),
+                String::new(),
+            )
+        })
+        .collect();
+    got.sort();
+    if rec.wants_note() {
+        rec.note(format!("zone [{}] {}: {} NSEC3 records", zone.render(), c.params.show(), got.len()));
+    }
+    let render = |v: &[Row]| {
+        v.iter()
+            .map(|(o, n, t, oo, orig)| {
+                format!(
+                    "{}{}.. -> {}.. ({}){}",
+                    if orig.is_empty() { String::new() } else { format!("H({orig})=") },
+                    &o[..6],
+                    &n[..6],
+                    t.iter().map(|t| ty::mnemonic(*t)).collect::<Vec<_>>().join(" "),
+                    if *oo { " OPT-OUT" } else { "" }
+                )
+            })
+            .collect::<Vec<_>>()
+            .join("; ")
+    };
+    let msg = || format!("zone [{}] {}: expected {{{}}} got {{{}}}", zone.render(), c.params.show(), render(&want), render(&got));
+    if hz.chain_nsec3.iter().any(|(_, d)| d.salt() != params.salt || d.iterations() != params.iterations) {
+        return triage(Fail::new("nsec3-chain-parameters-differ", msg()));
+    }
+    let wo: Vec<&String> = want.iter().map(|r| &r.0).collect();
+    let go: Vec<&String> = got.iter().map(|r| &r.0).collect();
+    if wo != go {
+        let missing: Vec<&Row> = want.iter().filter(|r| !go.contains(&&r.0)).collect();
+        let extra = got.iter().filter(|r| !wo.contains(&&r.0)).count();
+        let star = show(&wildcard_of(&zone.apex));
+        // Name::num_labels() does not count a leading `*`, so the ENT walk in nsec3_zone stops
+        // one level early exactly for `*.<apex>`
+        let sig = if extra == 0 && missing.len() == 1 && missing[0].4 == star && missing[0].2.is_empty() {
+            "nsec3-chain-omits-asterisk-ent-below-apex"
+        } else {
+            "nsec3-chain-owner-set-differs"
+        };
+        return triage(Fail::new(sig, msg()));
+    }
+    if want.iter().zip(&got).any(|(w, g)| w.1 != g.1) {
+        return triage(Fail::new("nsec3-chain-next-hashes-differ", msg()));
+    }
+    if want.iter().zip(&got).any(|(w, g)| w.2 != g.2) {
+        return triage(Fail::new("nsec3-chain-bitmaps-differ", msg()));
+    }
+    if want.iter().zip(&got).any(|(w, g)| w.3 != g.3) {
+        return triage(Fail::new("nsec3-chain-optout-flags-differ", msg()));
+    }
+    Ok(())
+}
+
+// ---------------------------------------------------------------------------------------------
+
+fn self_test() {
+    // RFC 5155 Appendix A: salt aabbccdd, 12 iterations
+    let salt = [0xaa, 0xbb, 0xcc, 0xdd];
+    for (n, h) in [
+        ("example", "0p9mhaveqvm6t7vbl5lop2u3t2rp3tom"),
+        ("a.example", "35mthgpgcu1qg68fab165klnsnk3dpvl"),
+        ("*.w.example", "r53bq7cc2uvmubfu5ocmm6pers9tk9en"),
+        ("x.y.w.example", "2vptu5timamqttgl4luu9kg21e0aor3s"),
+    ] {
+        let got = data_encoding::BASE32_DNSSEC.encode(&nsec3_hash(&crate::refm::zonemodel::parse_name(n), &salt, 12));
+        assert_eq!(got, h, "reference NSEC3 hash of {n} disagrees with RFC 5155 Appendix A");
+    }
+}
 
 pub fn check() -> Option<Check> {
-    None
+    self_test();
+    // exhaustive sweep: depth-2 zones with <= N owners x 4 parameter sets x 32 query names x 4
+    // types x every claim x SOA present/absent x all 2^k - 1 subsets of the ring (k <= 2N + 1)
+    let sound_enum = enumerate(
+        "sound_enum",
+        |env: &Env| match env.tier {
+            Tier::Quick => (enum_cases(1, 1, 0), true),
+            Tier::Thorough => (enum_cases(2, 1, 0), true),
+        },
+        sound_body,
+    );
+    let sound_slice = enumerate(
+        "sound_slice",
+        |env: &Env| {
+            let (n, stride) = match env.tier {
+                Tier::Quick => (2usize, 5usize),
+                Tier::Thorough => (3, 3),
+            };
+            let off = (env.seed % stride as u64) as usize;
+            let it = enum_cases(n, stride, off).filter(move |c| c.zone.as_str().matches(':').count() == n);
+            (Box::new(it) as Box<dyn Iterator<Item = Sound3Case> + Send>, false)
+        },
+        sound_body,
+    );
+    let sound_sampled = prop("sound_sampled", 16_000, 800_000, |_t: Tier| sampled_sound(7), sound_body);
+    let limits = prop("iteration_limits", 16_000, 500_000, |_t: Tier| sampled_limits(), sound_body);
+    let mix = prop("foreign_mix", 24_000, 800_000, |_t: Tier| sampled_mix(), mix_body);
+    let chain_enum = enumerate(
+        "chain_enum",
+        |env: &Env| {
+            let n = match env.tier {
+                Tier::Quick => 2,
+                Tier::Thorough => 3,
+            };
+            let ps = enum_params();
+            (
+                Box::new(zones::enum_zones(zones::APEX2, &zones::U2_NAMES, n).into_iter().flat_map(move |zone| {
+                    ps.clone().into_iter().map(move |params| Chain3Case { zone: zone.clone(), params })
+                })) as Box<dyn Iterator<Item = Chain3Case> + Send>,
+                true,
+            )
+        },
+        chain_body,
+    );
+    let chain_sampled = prop(
+        "chain_sampled",
+        5_000,
+        200_000,
+        |_t: Tier| (zones::zone_text(10), p3_small()).prop_map(|(zone, params)| Chain3Case { zone, params }),
+        chain_body,
+    );
+    let comp_enum = enumerate(
+        "complete_enum",
+        |env: &Env| match env.tier {
+            Tier::Quick => (comp_enum_cases(1), true),
+            Tier::Thorough => (comp_enum_cases(3), true),
+        },
+        comp_body,
+    );
+    let comp_sampled = prop("complete_sampled", 12_000, 400_000, |_t: Tier| sampled_comp(8), comp_body);
+    let comp_e2e = prop("complete_e2e", 5_000, 150_000, |_t: Tier| sampled_comp(6), e2e_body);
+    Some(Check {
+        id: "C09",
+        level: "exploration",
+        rule: "soundness case = (zone over labels {a,b,*} to depth 3 with hosts, CNAMEs, wildcards, empty non-terminals, delegations +/-DS, glue; NSEC3 parameters salt {0,1,8 octets} x iterations x Opt-Out; query name in or just outside the zone; query types) evaluated for every claim (NXDOMAIN, NODATA, each wildcard-expanded answer with a genuine RRSIG, NXDOMAIN+answer) x SOA name present/absent x every non-empty subset of the zone's genuine NSEC3 ring (all subsets for rings <= 6 records in sampled cases and <= 10 in enumerated ones, otherwise singletons, full, full-minus-one and 40 pseudo-random subsets); non-trivial when the query name is in the zone. sound_enum = exhaustive depth-2 sweep (quick <=1 owner, thorough <=2 owners; 4 parameter sets), sound_slice = 1/5 (quick) resp. 1/3 (thorough) slice of the next size. iteration_limits: iterations in {0,1,5,soft,soft+1,hard,hard+1} against configured (soft,hard): above hard every verdict must be Bogus, above soft none Secure. foreign_mix: subsets mixed with records of the same zone under other parameters (at least one of each) or of a disjoint zone (same or other parameters): never Secure unless the genuine part alone is. chain_*: hickory's generated ring = RFC 5155 7.1 ring of the model. Completeness case = (zone, parameters, query) with negative/wildcard truth answered by hickory's own NSEC3-signed zone, judged by verify_nsec3 (complete_enum, complete_sampled) and by DnssecDnsHandle (complete_e2e).",
+        assumptions: vec![
+            "truth predicate = refm::zonemodel (RFC 1034 4.3.2, RFC 4592, RFC 4035 3.1.4); NSEC3 ring per RFC 5155 7.1 with all records carrying the Opt-Out flag when the zone opts out and insecure delegations (and ENTs only leading to them) omitted; reference hash checked against RFC 5155 Appendix A at start-up",
+            "a Secure NODATA/DS verdict resting on an Opt-Out cover is accepted when the zone has no DS there and the name is not at/below a secure delegation (RFC 5155 6, 8.6)",
+            "completeness is not demanded where Opt-Out hides a name the answer hinges on (RFC 5155 9.2 allows no Secure verdict there); such cases are discarded and counted",
+            "foreign zones have apexes that are neither ancestors nor descendants of the zone under test; SHA-1 collisions do not occur in the universe",
+            "when the server's answer does not have the shape the truth predicts and the validator rejects it, the deviation is recorded under a server-* signature (root cause in the authoritative lookup, property C10)",
+        ],
+        subs: vec![
+            sound_enum,
+            sound_slice,
+            sound_sampled,
+            limits,
+            mix,
+            chain_enum,
+            chain_sampled,
+            comp_enum,
+            comp_sampled,
+            comp_e2e,
+        ],
+    })
 }
